@@ -2,7 +2,7 @@
    inputs to this function (extracted to OCaml) and to the JAX implementation. *)
 From Coq Require Import ZArith QArith Qcanon List Bool.
 From EXV Require Import Base.Scalar Base.FieldLemmas Base.Cplx Exec.Codec.
-From EXV Require Import Utils.Rollout Gen.ETDRK Gen.Guards Spectral.Symbols Gen.GenericUtils Steppers.Linear Layout.Freq Nonlin.Conv Nonlin.Terms Spectral.Operators.
+From EXV Require Import Utils.Rollout Gen.ETDRK Gen.Guards Spectral.Symbols Gen.GenericUtils Steppers.Linear Layout.Freq Nonlin.Conv Nonlin.Terms Spectral.Operators Nonlin.Injection.
 Import ListNotations.
 Local Open Scope Z_scope.
 
@@ -264,6 +264,16 @@ Definition run_ops (sub : Z) (a : list Q) : list Q :=
   | _ => []
   end.
 
+(* ---- C12: Kolmogorov injection arrays ---- *)
+Definition run_c12 (sub : Z) (a : list Q) : list Q :=
+  match sub with
+  | 1 => (* s gamma N kinj k0 k1 *)
+      put_cx [injection2d CQ (cr (getq a 0)) (cr (getq a 1)) (qz (getq a 2)) (qz (getq a 3)) (zs (skipn 4 a))]
+  | 2 => (* gamma N kinj channel k0 k1 k2 *)
+      put_cx [injection3d CQ ciQ (cr (getq a 0)) (qz (getq a 1)) (qz (getq a 2)) (qn (getq a 3)) (zs (skipn 4 a))]
+  | _ => []
+  end.
+
 Definition run (id : Z) (a : list Q) : list Q :=
   let '(prop, sub) := Z.div_eucl id 100 in
   match prop with
@@ -273,6 +283,7 @@ Definition run (id : Z) (a : list Q) : list Q :=
   | 4 => run_c04 sub a
   | 3 => match sub with 1 => run_term a | _ => [] end
   | 5 => run_ops sub a
+  | 12 => run_c12 sub a
   | 1 => match sub with 1 => run_sym a | 2 => run_wave a | _ => [] end
   | 13 => match sub with 1 => run_conv a | _ => [] end
   | _ => []
